@@ -1,7 +1,7 @@
 """Vocabulary shared by the contract files: global invariants (DESIGN.md 5.2) and cache-effect helpers."""
 from __future__ import annotations
 import z3
-from z3 import And, Or, Not, Implies, BoolVal
+from z3 import And, Or, Not, Implies, BoolVal, If
 from pyvc import terms as T
 from pyvc.terms import Ref, Int, Bool, NONE, Cnt, Mem, Len, snoc, Rem1, Without
 from pyvc.contracts import REG, Schema, Loose
@@ -59,14 +59,14 @@ def I19(S, ct):
     """C19: u.laws is L  <=>  L.applies_to is u   (L not None)"""
     def f(u, L):
         return Implies(And(ct.is_a(u, "Universe"), ct.is_a(L, "UniverseLaws")), (S.laws(u) == L) == (S.applies(L) == u))
-    return Schema("I19", (Ref, Ref), f)
+    return Schema("I19", (Ref, Ref), f, trigger=("product",))
 
 
 def TY_laws(S, ct):
-    def f(u, L):
-        return And(Implies(ct.is_a(u, "Universe"), Or(S.laws(u) == NONE, ct.is_a(S.laws(u), "UniverseLaws"))),
-                   Implies(ct.is_a(L, "UniverseLaws"), Or(S.applies(L) == NONE, ct.is_a(S.applies(L), "Universe"))))
-    return Schema("TY-laws", (Ref, Ref), f)
+    def f(x):
+        return And(Implies(ct.is_a(x, "Universe"), Or(S.laws(x) == NONE, ct.is_a(S.laws(x), "UniverseLaws"))),
+                   Implies(ct.is_a(x, "UniverseLaws"), Or(S.applies(x) == NONE, ct.is_a(S.applies(x), "Universe"))))
+    return Schema("TY-laws", (Ref,), f)
 
 
 # ---------------------------------------------------------------------------------------------- cache effects
@@ -89,3 +89,24 @@ def stats_monotone(o):
         return [Schema("stats-monotone", (Int,), lambda u: Implies(old(u), new(u)), trigger=("stats_has",))]
     o.loose("stats_has", c_stats)
     return o
+
+
+# ---------------------------------------------------------------------------------------------- `attributes=` dictionaries
+# An attributes argument is an opaque reference `a` (None allowed) with an abstract item list (A9: dict iteration order):
+from pyvc.terms import ad_isdict, ad_len, ad_key, ad_val, ad_has_n, ad_val_n
+
+
+def ad_unfold(a, i):
+    """definitional unfolding of ad_*_n at index i, for every attribute name occurring in the query"""
+    def f(_o, name):
+        return And(ad_has_n(a, i + 1, name) == Or(ad_key(a, i) == name, ad_has_n(a, i, name)),
+                   ad_val_n(a, i + 1, name) == If(ad_key(a, i) == name, ad_val(a, i), ad_val_n(a, i, name)),
+                   Not(ad_has_n(a, 0, name)))
+    return Schema(f"ad-unfold({i})", (Ref, T.Str), f, trigger=("dyn_has", "dyn_val"))
+
+
+def set_attrs_effect(o, S, obj, a):
+    """setattr(obj, k, v) for every item of the attributes dictionary `a` (if it is not None)"""
+    n = ad_len(a)
+    o.set_where("dyn_has", lambda ad: (And(a != NONE, ad[0] == obj, ad_has_n(a, n, ad[1])), BoolVal(True)))
+    o.set_where("dyn_val", lambda ad: (And(a != NONE, ad[0] == obj, ad_has_n(a, n, ad[1])), ad_val_n(a, n, ad[1])))
